@@ -177,9 +177,10 @@ inline std::string gen_ipv6_host(Rng& r) {
   if (comp > npieces) comp = npieces;
   if (comp >= 0 && r.chance(1, 3)) comp = r.chance(1, 2) ? 0 : npieces;  // leading / trailing "::"
   std::vector<std::string> pcs;
+  const bool padded = r.chance(1, 6);  // every piece written with four digits: the longest spellings (up to 45 bytes)
   for (int i = 0; i < npieces; i++) {
     std::string q;
-    int nd = r.chance(1, 20) ? 5 : int(r.range(1, 4));
+    int nd = padded ? 4 : (r.chance(1, 20) ? 5 : int(r.range(1, 4)));
     for (int k = 0; k < nd; k++) q += hexd[r.chance(1, 3) ? 0 : r.below(22)];
     pcs.push_back(q);
   }
@@ -196,7 +197,7 @@ inline std::string gen_ipv6_host(Rng& r) {
     std::string q;
     for (int i = 0; i < 4; i++) {
       if (i) q += ".";
-      q += std::to_string(r.chance(1, 10) ? r.below(400) : r.below(256));
+      q += std::to_string(padded ? 100 + r.below(156) : (r.chance(1, 10) ? r.below(400) : r.below(256)));
       if (r.chance(1, 30)) q += "0";
     }
     if (!body.empty() && body.back() != ':') body += ":";
@@ -376,6 +377,19 @@ inline std::string gen_port(Rng& r) {
   return r.chance(1, 2) ? "" : pick(r, p);
 }
 
+// userinfo built from chunks: any number of '@' and ':' in any order ("u@v:w@", ":@:", "a:b@c@")
+inline std::string gen_credentials(Rng& r) {
+  static const char* const chunk[] = {"u", "v", "w", "user", "pass", "a b", "\xc3\xa9", "%40", "x%zz", "", "p:q", ";=", "[", "^", "|"};
+  std::string o;
+  int n = r.range(1, 4);
+  for (int i = 0; i < n; i++) {
+    o += pick(r, chunk);
+    o += r.chance(1, 2) ? "@" : ":";
+  }
+  if (o.back() != '@') o += std::string(pick(r, chunk)) + "@";
+  return o;
+}
+
 inline std::string gen_abs_url(Rng& r) {
   static const char* const schemes[] = {"http", "https", "ws", "wss", "ftp", "file", "foo", "a",
                                         "blob", "mailto", "javascript", "data", "HTTP", "hTtPs",
@@ -386,7 +400,7 @@ inline std::string gen_abs_url(Rng& r) {
   o += pick(r, seps);
   if (r.chance(1, 6)) {
     static const char* const cr[] = {"user@", "user:pass@", ":@", "@", "u:p:q@", "a b:c d@", "\xc3\xa9:\xc3\xa9@", "u@@"};
-    o += pick(r, cr);
+    o += r.chance(1, 2) ? gen_credentials(r) : std::string(pick(r, cr));
   }
   if (s == "blob" && r.chance(2, 3)) {
     return "blob:" + std::string(r.chance(1, 2) ? "https://" : "http://") + gen_host(r) + gen_port(r) + gen_tail(r);
@@ -402,6 +416,14 @@ inline std::string gen_relative(Rng& r) {
                                     "C:/",  "./",    "..",   "/..//",    "#\xc3\xa9 \xc3\xa9", "?\xc3\xa9",
                                     "//\xc3\xa9", "//1", "///", "/C|/x", "a:b", "http:rel", "https:/x", "  \t x"};
   if (r.chance(1, 3)) return gen_tail(r);
+  if (r.chance(1, 5)) {
+    static const char* const open2[] = {"//", "\\\\", "\\/", "/\\", "///", "\\\\\\", "/\\/"};
+    std::string o = pick(r, open2);
+    if (r.chance(1, 4)) o += gen_credentials(r);
+    o += gen_host(r) + gen_port(r);
+    if (r.chance(1, 2)) o += gen_tail(r);
+    return o;
+  }
   return pick(r, rel);
 }
 
